@@ -1,5 +1,6 @@
 """Law checkers shared by the transform-level harnesses (C03 C04 C10 C11 C12 C13 C16 C17 C18).
 All take real objects and concrete or symbolic ints; they read fields and call the oracles only."""
+from engine import rt
 from engine.oracle.tokens import doc_tokens, frag_tokens, leaves, leaves_nomarks, slice_tokens
 from engine.oracle.valid import why_invalid
 
@@ -130,6 +131,12 @@ def map_faithful(before, step, after):
                 pass
             else:
                 return "token %d (%r) is not found unchanged at mapped index %d (%r)" % (i, x, j, y)
-        if mp.map(i, 1) != j and not any(s == i and o == 0 for (s, o, n) in trip):
+        if mp.map(i, 1) != j:
+            # listed open finding (C03): the token sits exactly where a zero-length second range starts at the end of the
+            # first range (a ReplaceAroundStep with an EMPTY gap) - StepMap consults only the first range that touches it
+            adjacent = len(trip) == 2 and trip[1][1] == 0 and trip[0][0] + trip[0][1] == trip[1][0] == i
+            if adjacent and mp.map(i, 1) == i + (shift - (trip[1][2] - trip[1][1])) \
+                    and rt.known_mode("C03-empty-gap-replace-around-map"):
+                continue
             return "map(%d, 1) = %d but the token moved to %d" % (i, mp.map(i, 1), j)
     return None
